@@ -25,7 +25,53 @@ def setup(ctx):
     tg = monitors_tgedmd.install()
 
 
+USER_CLASSES = {}
+
+
+def user_function(rng, d):
+    """a user-defined basis function of ALL coordinates (subclass of the library's Function with its own call / partial / partial2):
+    a quadratic form plus a linear part, or a Gaussian bump of a linear functional - Hessians with off-diagonal entries"""
+    if 'Quadratic' not in USER_CLASSES:
+        class Quadratic(tr.Function):
+            def __init__(self, Q, b, dimension):
+                super().__init__(dimension)
+                self.Q, self.b = Q, b
+
+            def __call__(self, t):
+                t = np.asarray(t)
+                return t @ self.Q @ t + self.b @ t
+
+            def partial(self, t, direction):
+                t = np.asarray(t)
+                return ((self.Q + self.Q.T) @ t)[direction] + self.b[direction]
+
+            def partial2(self, t, direction1, direction2):
+                return (self.Q + self.Q.T)[direction1, direction2] + 0 * np.asarray(t)[0]
+
+        class Ridge(tr.Function):
+            def __init__(self, a, dimension):
+                super().__init__(dimension)
+                self.a = a
+
+            def __call__(self, t):
+                return np.exp(-0.5 * (self.a @ np.asarray(t)) ** 2)
+
+            def partial(self, t, direction):
+                u = self.a @ np.asarray(t)
+                return -u * self.a[direction] * np.exp(-0.5 * u ** 2)
+
+            def partial2(self, t, direction1, direction2):
+                u = self.a @ np.asarray(t)
+                return (u ** 2 - 1.0) * self.a[direction1] * self.a[direction2] * np.exp(-0.5 * u ** 2)
+        USER_CLASSES['Quadratic'], USER_CLASSES['Ridge'] = Quadratic, Ridge
+    if rng.random() < 0.5:
+        return USER_CLASSES['Quadratic'](rng.standard_normal((d, d)), rng.standard_normal(d), d)
+    return USER_CLASSES['Ridge'](rng.standard_normal(d), d)
+
+
 def smooth_function(rng, d):
+    if d > 1 and rng.random() < 0.12:
+        return user_function(rng, d)
     i = int(rng.integers(0, d))
     k = int(rng.integers(0, 7))
     if k == 0:
@@ -66,6 +112,21 @@ def quiet(fn, *a, **kw):
         return fn(*a, **kw)
 
 
+def weights(rng, m):
+    """importance-sampling ratios: mild (0.5..2), spread over several decades, strongly peaked (a few snapshots carry the weight), or
+    unnormalised (all of the order 1e-6..1e-3) - ratios are only defined up to a factor and may differ by orders of magnitude"""
+    k = int(rng.integers(0, 5))
+    if k <= 1:
+        return rng.uniform(0.5, 2.0, size=m)
+    if k == 2:
+        return 10.0 ** rng.uniform(-4, 0, size=m)
+    if k == 3:
+        w = 10.0 ** rng.uniform(-4, -2, size=m)
+        w[rng.choice(m, size=max(1, m // 3), replace=False)] = rng.uniform(0.5, 2.0, size=max(1, m // 3))
+        return w
+    return rng.uniform(0.5, 2.0, size=m) * float(10 ** rng.uniform(-6, -3))
+
+
 def w_product(ctx, rng, idx):
     d = int(rng.integers(1, 4))
     d2 = d if rng.random() < 0.5 else int(rng.integers(1, 4))
@@ -97,14 +158,14 @@ def w_amuset(ctx, rng, idx):
     sigma = rng.standard_normal((d, d2, m))
     rev = bool(rng.integers(0, 2))
     b = None if rev else rng.standard_normal((d, m))
-    w = rng.uniform(0.5, 2.0, size=m) if rng.random() < 0.5 else None
+    w = weights(rng, m) if rng.random() < 0.5 else None
     opt = ['eigenfunctionevals', 'eigenvectors', 'eigentensors'][int(rng.integers(0, 3))]
     relthr = bool(rng.integers(0, 2))
     nev = np.inf if rng.random() < 0.6 else int(rng.integers(1, 4))
     ctx.describe({'op': 'tgedmd.amuset_hosvd', 'd': d, 'd2': d2, 'm': m, 'modes': [[type(f).__name__ for f in fl] for fl in bl], 'reversible': rev, 'reweight': w is not None,
                   'return_option': opt, 'rel_threshold': relthr, 'num_eigvals': str(nev)})
     tags = ['reversible' if rev else 'nonreversible', 'square_sigma' if d2 == d else 'nonsquare_sigma']
-    thr = [1e-8, 1e-8, 1e-10, 1e-6][int(rng.integers(0, 4))]
+    thr = [1e-8, 1e-8, 1e-10, 1e-6, 1e-2, 1e-3, 1e-1][int(rng.integers(0, 7))]  # (1e-2 is the default; decided where the cut falls into a gap)
     extra = {}
     if rng.random() < 0.25:
         extra['max_rank'] = [10 ** 4, 50][int(rng.integers(0, 2))]
@@ -115,7 +176,7 @@ def w_amuset(ctx, rng, idx):
     if rng.random() < 0.4:
         # the very same data / basis / diffusion arrays again with the other generator form and another weighting (second call)
         b2 = rng.standard_normal((d, m)) if rev else None
-        w2 = None if w is not None else rng.uniform(0.5, 2.0, size=m)
+        w2 = None if w is not None else weights(rng, m)
         call('tgedmd.amuset_hosvd', quiet, tg.amuset_hosvd, X, bl, sigma, prop=P, tags=['nonreversible' if rev else 'reversible', tags[1], 'second_call'], refusals=(np.linalg.LinAlgError,),
              b=b2, reweight=w2, num_eigvals=np.inf, threshold=thr, return_option='eigenfunctionevals', rel_threshold=relthr)
     if idx < 3:
